@@ -38,7 +38,7 @@ theorem bindParams_single (ps : List String) (u : Val) (env : Env) (b : Den) :
   match ps with
   | [] => simp [bindParams, bindPos, applyLam1, bind, Except.bind]
   | [y] =>
-    have : ([y] : List String).eraseDups.length = 1 := by simp [List.eraseDups, List.eraseDupsBy, List.eraseDupsBy.loop]
+    have : distinctS ([y] : List String) = true := by simp [distinctS]
     simp [bindParams, this, bindPos, bindKw, applyLam1, bind, Except.bind, pure, Except.pure]
   | y :: y' :: rest =>
     simp only [applyLam1]
